@@ -29,6 +29,18 @@ class CL(list):
     """closed list: one element of whoever holds it"""
 
 
+def assoc_tree(items, how):
+    """[e0, s1, e1, s2, e2] -> left: (s2, (s1, e0, e1), e2); right: (s1, e0, (s2, e1, e2)); a single e0 is itself"""
+    if len(items) == 1:
+        return items[0]
+    if how == 'left':
+        acc = items[0]
+        for i in range(1, len(items) - 1, 2):
+            acc = CL([items[i], acc, items[i + 1]])
+        return acc
+    return CL([items[1], items[0], assoc_tree(items[2:], how)])
+
+
 class St:
     __slots__ = ('elems', 'ast', 'cut')
 
@@ -370,6 +382,15 @@ class Ref:
         if isinstance(e, (Clo, PClo)):
             return self.closure(e.e, None, pos, st, positive=isinstance(e, PClo), keepsep=False)
         if isinstance(e, Join):
+            if e.assoc:
+                # documented: the joined list [e, s, e, s, e] re-associated into a tree (s, l, r); ONE value
+                ch = St(dict(st.ast))
+                end = self.closure(e.e, e.sep, pos, ch, positive=True, keepsep=True)
+                st.ast = ch.ast
+                st.elems.append(assoc_tree(list(ch.elems[-1]), e.assoc))
+                if len(ch.elems[-1]) >= 3:
+                    self.features.add('AssocJoin')
+                return end
             if e.positive:
                 return self.closure(e.e, e.sep, pos, st, positive=True, keepsep=not e.gather)
             # documented: s%{e} == s%{e}+ | {}
@@ -585,7 +606,7 @@ def nullable_map(g: Grammar) -> dict:
         if isinstance(e, (Opt, Clo, LA, NLA, Void, Empty, Cut, Const, Alert, EOF, EOL)):
             return True
         if isinstance(e, Join):
-            return True if not e.positive else n(e.e)
+            return True if not (e.positive or e.assoc) else n(e.e)
         if isinstance(e, (PClo, Group, SkipGroup, Named, NamedList, Over, OverList)):
             return n(e.e)
         if isinstance(e, SkipTo):
